@@ -208,6 +208,7 @@ def run(rep, tier, seed):
             if mt.get("y") != wy or mt.get("z") != wz:
                 rep.violation("C07:qualified-name:arguments-not-substituted", "%s.y has type %s and %s.z has type %s; with %s's arguments "
                               "substituted they are %s and %s" % (pname, mt.get("y"), pname, mt.get("z"), pname, wy, wz), tc)
+    run_fixture2(rep, rng, quick)
     rep.sample({"declared_at": sorted(cases[37][0]), "name": cases[37][1], "model": cases[37][2].steps[0].args[5].decode()[:1500]})
     rep.rule = ("the contested name declared at every subset of nine scope levels (global, template parameter, template "
                 "local, function parameter, block, nested block, iteration binder, quantifier binder, select binder; "
@@ -215,6 +216,243 @@ def run(rep, tier, seed):
                 "edges with and without select, system section, template functions) + process-qualified and unqualified "
                 "names in queries; soft-keyword-like names included; distinct = (subset, name)")
     rep.extra["use_sites_checked"] = sites_checked
+
+
+# ------------------------------------------------------------------------------------------------------------
+# second fixture: type names, nested binders, and scopes after error recovery
+TLEVELS = ["global", "tlocal", "fblock", "fnested"]
+TRANGE = {"global": 200, "tlocal": 202, "fblock": 204, "fnested": 205}
+
+
+def build_types(S, name="T"):
+    """typedef <name> at the global level and at every level in S, each with its own range; variables, parameters and
+    binders of that type declared before and after each typedef.  The upper bound of a variable's range names the
+    typedef its type was bound to."""
+    T = name
+
+    def td(level):
+        return "typedef int[0,%d] %s;" % (TRANGE[level], T) if level in S or level == "global" else ""
+    g = ["int r0;", td("global"), "%s g_after;" % T,
+         "int gf(%s p_par) {" % T, "  %s f_before;" % T, "  {", "    %s b_before;" % T if False else "",
+         "    " + td("fblock"), "    %s b_after;" % T, "    {", "      " + td("fnested"), "      %s n_after;" % T,
+         "      for (it : %s) { r0 = it; }" % T, "      r0 = sum (q : %s) q;" % T, "    }", "    r0 = forall (q2 : %s) q2 >= 0;" % T, "  }",
+         "  for (it2 : %s) { r0 = it2; }" % T, "  return 0;", "}", "%s g_last;" % T]
+    tdecl = "%s t_before;\n%s\n%s t_after;\nint tf(%s tp) { %s tl; return 0; }" % (T, td("tlocal"), T, T, T)
+    out = [xmlgen.HEADER, "<nta><declaration>", xmlgen.esc("\n".join(x for x in g if x)), "</declaration><template><name>P</name>",
+           "<parameter>", xmlgen.esc("%s &ppar" % T), "</parameter><declaration>", xmlgen.esc(tdecl), "</declaration>",
+           '<location id="a"><name>LocA</name></location><init ref="a"/>',
+           '<transition><source ref="a"/><target ref="a"/>', xmlgen.label("select", "sel : %s" % T), xmlgen.label("guard", "forall (qg : %s) qg + sel >= 0" % T),
+           "</transition></template><system>", xmlgen.esc("%s sys_v;\nP1 = P(g_after);\nsystem P1;" % T), "</system></nta>"]
+    return "".join(out)
+
+
+def type_expect(S):
+    def inner(*chain):
+        for lv in chain:
+            if lv in S:
+                return TRANGE[lv]
+        return TRANGE["global"]
+    return {"g_after": inner(), "g_last": inner(), "sys_v": inner(), "p_par": inner(), "f_before": inner(),
+            "b_after": inner("fblock"), "n_after": inner("fnested", "fblock"), "it": inner("fnested", "fblock"),
+            "q": inner("fnested", "fblock"), "q2": inner("fblock"), "it2": inner(), "ppar": inner(), "t_before": inner(),
+            "t_after": inner("tlocal"), "tp": inner("tlocal"), "tl": inner("tlocal"), "sel": inner("tlocal"), "qg": inner("tlocal")}
+
+
+def type_observed(doc):
+    """variable / parameter / binder name -> upper bound of the range its type was bound to"""
+    import json
+    txt = json.dumps(doc)
+    obs = {}
+    for nm in type_expect(set()):
+        # declared variables, parameters, selects: {"name": nm, "type": "...(CONSTANT i 0)> <UNKNOWN (CONSTANT i N)>..."}
+        m = re.search(r'"name": "%s", "type": "((?:[^"\\]|\\.)*)"' % nm, txt)
+        t = m.group(1) if m else None
+        if t is None:
+            # binders inside dumped bodies / labels: (bind nm <...>)
+            m = re.search(r"\(bind %s (<.*?>)\)" % nm, txt)
+            t = m.group(1) if m else None
+        if t is None:
+            # iteration binders are local variables of the function body: "(it nm <type>"
+            m = re.search(r"\b%s\b[^<\"]{0,12}(<(?:CONSTANT )?<?LABEL[^\"]*?>>>)" % nm, txt)
+            t = m.group(1) if m else None
+        if t is None:
+            obs[nm] = None
+            continue
+        m = re.search(r"\(CONSTANT i 0\)> <UNKNOWN \(CONSTANT i (\d+)\)>", t)
+        obs[nm] = int(m.group(1)) if m else None
+    return obs
+
+
+NESTS = [
+    # (function body template with %s for the braces, description)
+    ("for (x : int[0,1]) %s for (j : int[0,2]) %s r0 = x + j; %s %s", "iteration/iteration"),
+    ("for (x : int[0,1]) %s for (j : int[0,2]) %s for (k : int[0,3]) r0 = x + j + k; %s %s", "iteration/iteration/iteration"),
+    ("for (x : int[0,1]) %s for (x2 : int[0,2]) %s r0 = (forall (j : int[0,3]) x + j >= x2) ? 1 : 0; %s %s", "iteration/iteration/forall"),
+    ("for (x : int[0,1]) %s while (r0 < 3) %s r0 = r0 + x; %s %s", "iteration/while"),
+    ("for (x : int[0,1]) %s if (x > 0) %s r0 = x; %s %s", "iteration/if"),
+    ("for (x : int[0,1]) %s do %s r0 = r0 + x; %s while (r0 < 3); %s", "iteration/do"),
+    ("for (x : int[0,1]) %s for (r0 = 0; r0 < x; r0++) %s r0 = r0 + x; %s %s", "iteration/for"),
+]
+
+
+def build_nest(i, braced):
+    body, _ = NESTS[i]
+    b = ("{", "{", "}", "}") if braced else ("", "", "", "")
+    decl = "clock x; clock j; int r0;\nvoid f() { %s }" % (body % b)
+    return xmlgen.simple_model(decl=decl)
+
+
+FAULTY = [
+    # (description, replacements applied to the template F of build_recovery)
+    ("none", []),
+    ("edge:both-endpoints-foreign", [('<source ref="fa"/><target ref="fb"/>', '<source ref="ga"/><target ref="gb"/>')]),
+    ("edge:source-foreign", [('<source ref="fa"/><target ref="fb"/>', '<source ref="ga"/><target ref="fb"/>')]),
+    ("edge:target-foreign", [('<source ref="fa"/><target ref="fb"/>', '<source ref="fa"/><target ref="gb"/>')]),
+    ("edge:both-foreign-twice", [('<source ref="fa"/><target ref="fb"/>', '<source ref="ga"/><target ref="gb"/>'),
+                                 ('<source ref="fb"/><target ref="fa"/>', '<source ref="gb"/><target ref="ga"/>')]),
+    ("select:syntax", [("sel : int[0,3]", "sel : int[0,3")]),
+    ("select:unknown-type", [("sel : int[0,3]", "sel : nosuchtype")]),
+    ("guard:syntax", [("v &gt; 1 &amp;&amp; sel &gt;= 0", "v &gt; 1 &amp;&amp; ( sel")]),
+    ("sync:syntax", [("ca[sel]!", "ca[sel!")]),
+    ("assign:syntax", [("r1 = v", "r1 = = v")]),
+    ("init:unknown", [('<init ref="fa"/>', '<init ref="nowhere"/>')]),
+    ("init:foreign", [('<init ref="fa"/>', '<init ref="ga"/>')]),
+    ("init:missing", [('<init ref="fa"/>', '')]),
+    ("local:unclosed-function", [("int lf(int q) { return q; }", "int lf(int q) { return q; ")]),
+    ("local:unclosed-block", [("int lf(int q) { return q; }", "int lf(int q) { { return q; }")]),
+    ("local:bad-statement", [("int lf(int q) { return q; }", "int lf(int q) { if ( { return q; }")]),
+    ("local:duplicate", [("int lf(int q) { return q; }", "int lf(int q) { return q; } int lf;")]),
+    ("param:syntax", [("const int[0,101] fp", "const int[0,101 fp")]),
+    ("param:duplicate", [("const int[0,101] fp", "const int[0,101] fp, int fp")]),
+    ("location:duplicate-id", [('<location id="fb"><name>FB</name></location>', '<location id="fb"><name>FB</name></location><location id="fb"><name>FC</name></location>')]),
+    ("location:duplicate-name", [('<location id="fb"><name>FB</name></location>', '<location id="fb"><name>FA</name></location>')]),
+    ("invariant:syntax", [("v &gt;= 0</label>", "v &gt;= </label>")]),
+]
+
+
+def build_recovery(i, f_first=True):
+    """Template F (declares its own v, lf, sel) with fault i, template G (declares nothing), and a system section; all
+    uses of v outside F must bind to the global v whatever went wrong inside F."""
+    F = ('<template><name>F</name><parameter>const int[0,101] fp</parameter><declaration>int[0,102] v; int lf(int q) { return q; }</declaration>'
+         '<location id="fa"><name>FA</name><label kind="invariant">v &gt;= 0</label></location><location id="fb"><name>FB</name></location><init ref="fa"/>'
+         '<transition><source ref="fa"/><target ref="fb"/><label kind="select">sel : int[0,3]</label><label kind="guard">v &gt; 1 &amp;&amp; sel &gt;= 0</label>'
+         '<label kind="synchronisation">ca[sel]!</label><label kind="assignment">r1 = v</label></transition>'
+         '<transition><source ref="fb"/><target ref="fa"/><label kind="guard">v &gt; 2</label></transition></template>')
+    for a, b in FAULTY[i][1]:
+        assert a in F, (FAULTY[i][0], a)
+        F = F.replace(a, b, 1)
+    G = ('<template><name>G</name><parameter>const int[0,111] gp</parameter><declaration>int guse = v;</declaration>'
+         '<location id="ga"><name>GA</name><label kind="invariant">v &gt;= 0</label></location><location id="gb"><name>GB</name></location><init ref="ga"/>'
+         '<transition><source ref="ga"/><target ref="gb"/><label kind="guard">v &gt; 3</label><label kind="assignment">r2 = v + gp</label></transition></template>')
+    gdecl = "int[0,100] v; int r1; int r2; chan ca[4];"
+    sysd = "int sys_use = v;\nF1 = F(1);\nG1 = G(v);\nsystem F1, G1;"
+    ts = F + G if f_first else G + F
+    return (xmlgen.HEADER + "<nta><declaration>" + xmlgen.esc(gdecl) + "</declaration>" + ts + "<system>" + xmlgen.esc(sysd) +
+            "</system></nta>")
+
+
+def recovery_observed(doc):
+    obs = {}
+    ident = re.compile(r"\(IDENTIFIER v@([^)]*)\)")
+
+    def own(dump):
+        m = ident.search(dump or "")
+        return m.group(1) if m else ("UNKNOWN" if "(CONSTANT b 0)" in (dump or "") else "?")
+    gv = {x["name"]: x for x in doc["globals"]["vars"]}
+    obs["SYS"] = own(gv["sys_use"]["init"]) if "sys_use" in gv else "?"
+    for t in doc["templates"]:
+        if t["name"] != "G":
+            continue
+        tv = {x["name"]: x for x in t["decl"]["vars"]}
+        obs["G.local-init"] = own(tv["guse"]["init"]) if "guse" in tv else "?"
+        obs["G.invariant"] = own(t["locations"][0]["inv"]) if t["locations"] else "?"
+        if t["edges"]:
+            obs["G.guard"] = own(t["edges"][0]["guard"])
+            obs["G.update"] = own(t["edges"][0]["assign"])
+    for i in doc["instances"]:
+        if i["name"] == "G1":
+            obs["G1.argument"] = own(" ".join(i["mapping"].values()))
+    return obs
+
+
+def run_fixture2(rep, rng, quick):
+    # ---- type names
+    cases = []
+    for k in range(4):
+        for c in itertools.combinations(TLEVELS[1:], k):
+            for name in (["T", "id_t"] if quick else ["T", "id_t", "A", "U", "size_t", "t"]):
+                xml = build_types(set(c), name)
+                cases.append((set(c), name, Case("ty%d" % len(cases), [Step("parse_builder", 0, "xml_buffer", 1, "doc", 1, xml)], timeout=60)))
+    res = run_cases([c for _, _, c in cases])
+    n = 0
+    for S, name, c in cases:
+        r = res[c.id]
+        if r["status"] != "ok":
+            rep.crash(r, c)
+            continue
+        s = r["steps"][0]
+        if s.get("exc") or s["errors"]:
+            rep.violation("C07:type-name:valid-model-rejected", "typedef %s at %s: %s %s" % (name, sorted(S), s.get("exc"), s["errors"][:2]), c)
+            continue
+        obs = type_observed(s["doc"])
+        rep.observe(("types", tuple(sorted(S)), name))
+        for site, want in type_expect(S).items():
+            got = obs.get(site)
+            n += 1
+            if got is None:
+                rep.inconclusive_case("type of %s not found in the dump" % site)
+            elif got != want:
+                rep.violation("C07:type-name:wrong-binding:%s" % site, "typedef %s declared at global+%s: the type of %s is bound to the "
+                              "typedef with range [0,%s], the scope rule prescribes [0,%d]" % (name, sorted(S), site, got, want), c)
+    rep.extra["type_name_sites_checked"] = n
+    # ---- nested binders, with and without braces
+    ncases = []
+    for i in range(len(NESTS)):
+        for braced in (False, True):
+            ncases.append((i, braced, Case("ne%d%d" % (i, braced), [Step("parse_builder", 0, "xml_buffer", 1, "doc", 1, build_nest(i, braced))], timeout=60)))
+    nres = run_cases([c for _, _, c in ncases])
+    for i, braced, c in ncases:
+        r = nres[c.id]
+        if r["status"] != "ok":
+            rep.crash(r, c)
+            continue
+        s = r["steps"][0]
+        what = NESTS[i][1] + ("/braced" if braced else "/unbraced")
+        if s.get("exc") or s["errors"]:
+            rep.violation("C07:nested-binder:rejected:" + what, "nested binders (%s) rejected: %s %s" % (what, s.get("exc"), s["errors"][:2]), c)
+            continue
+        body = [f for f in s["doc"]["globals"]["funcs"] if f["name"] == "f"][0]["body"]
+        rep.observe(("nest", i, braced))
+        for v in ("x", "j"):
+            for m in re.finditer(r"\(IDENTIFIER %s@([^)]*)\)" % v, body):
+                if m.group(1) == "global":
+                    rep.violation("C07:nested-binder:bound-to-global:" + what, "in %s the use of %s inside the innermost statement is "
+                                  "bound to the global clock instead of the enclosing binder: %s" % (what, v, body[:600]), c)
+                    break
+    # ---- scopes after error recovery inside one template
+    rcases = []
+    for i in range(len(FAULTY)):
+        for f_first in (True, False):
+            rcases.append((i, f_first, Case("rc%d%d" % (i, f_first), [Step("parse_builder", 0, "xml_buffer", 1, "doc", 1, build_recovery(i, f_first))], timeout=60)))
+    rres = run_cases([c for _, _, c in rcases])
+    for i, f_first, c in rcases:
+        r = rres[c.id]
+        if r["status"] != "ok":
+            rep.crash(r, c)
+            continue
+        s = r["steps"][0]
+        if s.get("exc"):
+            rep.observe(None)
+            continue            # the whole parse ended in an exception: no document to look at
+        obs = recovery_observed(s["doc"])
+        rep.observe(("recovery", i, f_first))
+        if FAULTY[i][0] == "none" and s["errors"]:
+            rep.violation("C07:recovery-fixture-rejected", "fault-free fixture rejected: %s" % s["errors"][:2], c)
+        for site, got in obs.items():
+            if got not in ("global",):
+                rep.violation("C07:scope-after-error:%s:%s" % (FAULTY[i][0].split(":")[0], site), "after the fault '%s' inside template F "
+                              "(F %s G) the use of v at %s is bound to %s; outside F only the global v is in scope" % (
+                                  FAULTY[i][0], "before" if f_first else "after", site, got), c)
 
 
 def replay(data):
